@@ -506,3 +506,61 @@ func verifC15_abandoned() {
 	c.CloseNow()
 	vObserve("c15abandoned", err2 != nil)
 }
+
+// C15.queued-pings: two Pings are started while a writer holds the frame lock (stuck in the transport): both are
+// registered and queued. When the writer gets on, two Ping frames with DIFFERENT payloads go out, and each Ping returns
+// nil exactly when the Pong with its own payload has come (the peer answers them in reverse order).
+func verifC15_queued_pings() {
+	client := vParam("client", 1) == 1
+	vInstallRand()
+	mk := func(f vFrame) vFrame {
+		f.masked = !client
+		if f.masked {
+			copy(f.key[:], vBytes("key", 4))
+		}
+		return f
+	}
+	t := vNewTransport(nil)
+	t.endMode = vEndBlock
+	t.holdAt = 1
+	c := vNewConn(t, client, nil, 32, 64)
+	wdone := make(chan error, 1)
+	go func() { wdone <- c.Write(vBG, MessageBinary, vBytes("w", 2)) }()
+	vGhostSettle()
+	c.CloseRead(vBG)
+	ctx, cancel := context.WithTimeout(vBG, 3*time.Second)
+	defer cancel()
+	p1, p2 := make(chan error, 1), make(chan error, 1)
+	go func() { p1 <- c.Ping(ctx) }()
+	vGhostSettle()
+	go func() { p2 <- c.Ping(ctx) }()
+	vGhostSettle()
+	close(t.release)
+	vAssert(<-wdone == nil, "C15.queued-pings.writer-ok")
+	vGhostSettle()
+	frs, ok := vParseWritten(t.out)
+	vAssert(ok, "C15.queued-pings.wellformed")
+	var pings [][]byte
+	for _, f := range frs {
+		if f.opcode == 9 {
+			pings = append(pings, f.payload)
+		}
+	}
+	vReach("C15.queued-pings.sent")
+	vAssert(len(pings) == 2, "C15.queued-pings.two-ping-frames")
+	if len(pings) != 2 {
+		c.CloseNow()
+		return
+	}
+	vAssert(!vEqBytes(pings[0], pings[1]), "C15.own.concurrent-pings-carry-different-payloads")
+	// the peer answers the second Ping frame first
+	t.vFeed(vEncodeFrame(mk(vFrame{fin: true, opcode: 10, payload: pings[1]})))
+	vGhostSettle()
+	n := len(p1) + len(p2)
+	vAssert(n == 1, "C15.own.one-pong-completes-one-ping")
+	t.vFeed(vEncodeFrame(mk(vFrame{fin: true, opcode: 10, payload: pings[0]})))
+	e1, e2 := <-p1, <-p2
+	vAssert(e1 == nil && e2 == nil, "C15.own.each-ping-completed-by-its-own-pong")
+	c.CloseNow()
+	vObserve("c15queued", len(pings))
+}
